@@ -12,6 +12,7 @@ from fractions import Fraction
 from hypothesis import strategies as st
 
 from ..runner import Violation, lib_frame
+from ..guards import call_unchanged
 from .. import formula_ast as fa
 from .. import tables_c05 as tc
 from ..atoms import Pool, resolve, atom_key, key_to_atom, spec_class, DT
@@ -245,7 +246,7 @@ def lib_call(case, label, fn, dt_ion=False):
     """Run a library call; an exception is a violation of the property (the
     inputs are in the documented domain)."""
     try:
-        return fn()
+        return call_unchanged("c05", case, fn)
     except Violation:
         raise
     except Exception as e:  # noqa
